@@ -25,11 +25,14 @@ import (
 // acknowledgement never asks for more than the replica is missing.
 
 type UnitMsg struct {
-	From   int  `json:"from"`              // first step (1-based) of the slice
-	To     int  `json:"to"`                // last step
-	FailAt int  `json:"fail_at,omitempty"` // 1-based entry of the message whose apply fails (0: none)
-	Codec  int  `json:"codec,omitempty"`   // 0 none, 1 zstd, 2 snappy (really compressed)
-	Direct bool `json:"direct"`
+	From     int  `json:"from"`              // first step (1-based) of the slice
+	To       int  `json:"to"`                // last step
+	FailAt   int  `json:"fail_at,omitempty"` // 1-based entry of the message whose apply fails (0: none)
+	Codec    int  `json:"codec,omitempty"`   // 0 none, 1 zstd, 2 snappy (really compressed)
+	Direct   bool `json:"direct"`
+	HoleFrom int  `json:"hole_from,omitempty"` // steps hole_from..hole_to are missing from the slice (a log file the sender could not read)
+	HoleTo   int  `json:"hole_to,omitempty"`
+	Back     int  `json:"back,omitempty"` // a stray older step appended at the end
 }
 
 type UnitScript struct {
@@ -190,7 +193,17 @@ func runC13Unit(t *testing.T, c ReplCase) *kit.Result {
 				continue
 			}
 			resp := &pb.WALStreamResponse{}
+			steps := []int{}
 			for s := from; s <= to; s++ {
+				if msg.HoleFrom > 0 && s >= msg.HoleFrom && s <= msg.HoleTo {
+					continue
+				}
+				steps = append(steps, s)
+			}
+			if msg.Back >= 1 && msg.Back <= len(log) {
+				steps = append(steps, msg.Back)
+			}
+			for _, s := range steps {
 				for _, x := range log[s-1] {
 					pe, err := replication.WALEntryToProto(x.e, pb.FragmentType_FULL)
 					if err != nil {
@@ -314,7 +327,17 @@ func genUnitScript(r *kit.Rand) *UnitScript {
 		if r.Bool(0.15) {
 			msg.FailAt = r.Range(1, 6)
 		}
-		if msg.To+1 > cur && msg.From <= cur && msg.FailAt == 0 {
+		if r.Bool(0.12) && msg.To-msg.From >= 2 {
+			msg.HoleFrom = msg.From + r.Range(1, msg.To-msg.From-1)
+			msg.HoleTo = msg.HoleFrom + r.Range(0, 2)
+			if msg.HoleTo >= msg.To {
+				msg.HoleTo = msg.To - 1
+			}
+		}
+		if r.Bool(0.04) {
+			msg.Back = r.Range(1, n)
+		}
+		if msg.To+1 > cur && msg.From <= cur && msg.FailAt == 0 && msg.HoleFrom == 0 {
 			cur = msg.To + 1
 		}
 		if cur > n {
